@@ -173,7 +173,7 @@ Definition check_final (m : mst) : mst :=
          | None =>
              if negb (own_ins acc i) || has_alive_run acc (i_id i) then acc
              else if verdict_ok (m_store acc) i then acc
-             else add_viol acc 4 (i_status i) (i_id i)
+             else add_viol acc 4 (i_status i + (if Z.eqb (fget acc 13 (i_id i)) 1 then 100 else 0)) (i_id i)
          end) (insts (m_store m1)) m1.
 
 (* ------------------------------------------------------------------ dependency closure (C12) *)
@@ -364,6 +364,14 @@ Definition on_write (m : mst) (origin : Z) (o : sop) (acked : bool) (s s' : stor
       let m := match cmd with
                | Some _ => if zin origin [6; 9] then m else add_viol m 11 4 id
                | None => m
+               end in
+      (* a command is rejected while another one is pending: the commander never overwrites a stored command *)
+      let m := match cmd, find_ins s id with
+               | Some _, Some i0 => match i_cmd i0 with
+                                    | Some _ => if Z.eqb origin 6 then add_viol m 11 6 id else m
+                                    | None => m
+                                    end
+               | _, _ => m
                end in
       (* command processing by the cmd watcher: the clearing write *)
       if Z.eqb origin 2 && must_cmd && match cmd with None => true | Some _ => false end then
@@ -738,7 +746,7 @@ Definition mstep0 (m : mst) (ev : sx) : mst :=
 Definition mstep (m : mst) (ev : sx) : mst :=
   let m1 := mstep0 m ev in
   match ev with
-  | L [I 20] => fclear_kind m1 19
+  | L [I 20] => fclear_kind (fclear_kind m1 19) 11   (* a command interrupted by the crash is executed afresh: its re-arming count starts again *)
   | _ => track_pc m1 ev
   end.
 
